@@ -40,7 +40,8 @@ theorem splitU_pieces (short keepTail : List β → Bool) (obs : List (β × Boo
   · cases hk : keepTail cur <;> simp [hb, hk]
 
 /-- the piece with numbers (`count`, `begin`, `end`) is the run `begin..end` of the track -/
-def IdOk (full : List β) (x : PId × List β) : Prop := x.2 = (full.take (x.1.2.2 + 1)).drop x.1.2.1
+def IdOk (full : List β) (x : PId × List β) : Prop :=
+  x.2 = (full.take (x.1.2.2 + 1)).drop x.1.2.1 ∧ x.1.2.1 ≤ x.1.2.2 + 1 ∧ x.1.2.2 + 1 ≤ full.length
 
 theorem goU_inv (short : List β → Bool) (full : List β) :
     ∀ (rest : List (β × Bool)) (pre : List β) (i begin count : Nat) (cur : List β) (acc : List (PId × List β)),
@@ -82,7 +83,7 @@ theorem goU_inv (short : List β → Bool) (full : List β) :
           · exact hacc x h
           · have : x = ((count, begin, i), cur ++ [o]) := by simpa using h
             subst this
-            exact hpiece
+            exact ⟨hpiece, by show begin ≤ i + 1; omega, by show i + 1 ≤ full.length; rw [hfull']; simp; omega⟩
         · simp [hcnt, List.range_succ]
     | false =>
       simp only [goU, Bool.false_eq_true, if_false]
@@ -121,8 +122,29 @@ theorem splitU_ids (short keepTail : List β → Bool) (obs : List (β × Bool))
         · have : x = ((count, begin, obs.length - 1), cur) := by simpa using h
           subst this
           simp only [List.length_map] at h4
-          show cur = ((obs.map Prod.fst).take (obs.length - 1 + 1)).drop begin
           have e : obs.length - 1 + 1 = (obs.map Prod.fst).length := by simp; omega
-          rw [e, List.take_length, h3]
+          refine ⟨?_, ?_, ?_⟩
+          · show cur = ((obs.map Prod.fst).take (obs.length - 1 + 1)).drop begin
+            rw [e, List.take_length, h3]
+          · show begin ≤ obs.length - 1 + 1
+            omega
+          · show obs.length - 1 + 1 ≤ (obs.map Prod.fst).length
+            omega
       · simp [h2, hlen, List.range_succ]
+
+/-- a piece with uid numbers (`begin`, `end`) is what `Track.extract(begin, end)` returns -/
+theorem IdOk.extract {full : List β} {x : PId × List β} (h : IdOk full x) :
+    extract full (x.1.2.1 : Int) (x.1.2.2 : Int) = some x.2 := by
+  obtain ⟨⟨c, b, e⟩, p⟩ := x
+  obtain ⟨hp, hbe, hel⟩ := h
+  simp only at hp hbe hel ⊢
+  by_cases hlt : b ≤ e
+  · rw [extract_range full b e hlt (by omega), hp, List.drop_take]
+  · have hb : b = e + 1 := by omega
+    rw [extract_empty full b e (by omega), hp, hb]
+    congr 1
+    symm
+    apply List.drop_eq_nil_of_le
+    simp only [List.length_take]
+    omega
 end TV.Split
